@@ -43,7 +43,7 @@ def rule_e_loop_exit(ctx, cfg='prod-all'):
     """sign / sign_multiattr / blind_sign: the code after the `while !(...) { e = random_prime(le) }` loop is reached only through the
     exit edge of a condition that compares e with 2^(le-1), with 2^le and gcd(e, phi) with 1; e comes from random_prime(le)."""
     prog, eng, ga = ctx.prog(cfg), ctx.eng(cfg), ctx.gates(cfg)
-    for suffix in (SIGI + 'sign', SIGI + 'sign_multiattr', BSI + 'blind_sign'):
+    for suffix in (SIGI + 'sign', SIGI + 'sign_multiattr', BSI + 'blind_sign', BSI + 'update_signature'):
         entry = resolve_fn(prog, suffix)
         efd = eng.fndep(entry.path)
         # the body (this function, or a helper of the module it calls) that holds the search loop and computes the inverse of e
@@ -302,7 +302,7 @@ def rule_commit_prove_base_agreement(ctx, cfg='prod-all'):
             yield Ob('RF-B', '%s#no-pairs' % b.path, False, 'expected nisp2sec_generate_proof calls', b.span, fact=0, expected='>=1')
 
 
-def rule_carried_commitment_equalities(ctx, cfg='prod-all'):
+def rule_carried_commitment_equalities(ctx, cfg='prod-all', link=()):
     """RF-J: a sub-proof that carries its own copy of a commitment value must have that copy equated with the value the parent fixes."""
     prog = ctx.prog(cfg)
     table = [
@@ -328,6 +328,24 @@ def rule_carried_commitment_equalities(ctx, cfg='prod-all'):
         ]),
     ]
     for ob in rule_accept_requirements(ctx, table, cfg=cfg, rule='RF-J'):
+        yield ob
+    # the per-attribute sub-proofs are proofs about *the same* attributes as the main proof only if something equates them: a comparison the
+    # verdict depends on must see both the per-attribute proof of m_i and the part of the main proof (or the commitment) that is about m_i
+    link_table = [
+        (ZKI + 'verify_proof', [
+            {'id': 'per-attribute-link', 'any_path': True, 'gate_callee': ['PartialEq'],
+             'what': 'the per-attribute proofs of knowledge / range proofs are tied to the commitment C that gets signed (a comparison sees both)',
+             'alts': [{'cover': ['self.proofs_commited_mi', 'self.proof_commited_msgs']}, {'cover': ['self.proofs_commited_mi', 'C.value']},
+                      {'cover': ['self.range_proofs_mi', 'C.value']}, {'cover': ['self.range_proofs_mi', 'self.proof_commited_msgs']}]},
+        ]),
+        (POKI + 'proof_verify', [
+            {'id': 'per-attribute-link', 'any_path': True, 'gate_callee': ['PartialEq'],
+             'what': 'the per-attribute proofs of knowledge / range proofs are tied to the proof of knowledge of the signature (a comparison sees both)',
+             'alts': [{'cover': ['self.proofs_commited_mi', 'self.spok']}, {'cover': ['self.range_proofs_commited_mi', 'self.spok']}]},
+        ]),
+    ]
+    want = [e for e in link_table if any(x in e[0] for x in link)]
+    for ob in rule_accept_requirements(ctx, want, cfg=cfg, rule='RF-J'):
         yield ob
 
 
@@ -436,6 +454,79 @@ def rule_every_leaf_gates(ctx, cfg='prod-all', which=('pok', 'zkpok')):
             yield Ob('RF-K', '%s#leaf:%s' % (body.path, '.'.join(path)), fails == 0,
                      'transmitted field must influence a comparison every accept path depends on (altering it must be able to change the verdict)',
                      body.span, fact={'accept_paths': len(aps), 'paths_without_gate': fails, 'type': ty}, expected='gates acceptance')
+
+
+# ---------------------------------------------------------------------------------- the statement is part of the Fiat-Shamir challenge
+FS_VERIFIERS = [SP + 'NISPSignaturePoK::nisp5_MultiAttr_verify_proof', SP + 'NISP2Commitments::nisp2_verify_proof_MultiSecrets',
+                SP + 'NISPSecrets::nisp2sec_verify_proof', SP + 'NISPMultiSecrets::nispMultiSecrets_verify_proof',
+                RP + 'verify_same_secret', RP + 'verify_large_interval_specific']
+
+
+FS_ARMED = (SP + 'NISPSignaturePoK::nisp5_MultiAttr_verify_proof', SP + 'NISP2Commitments::nisp2_verify_proof_MultiSecrets',
+            RP + 'verify_same_secret', RP + 'verify_large_interval_specific')
+
+
+def rule_statement_in_challenge(ctx, cfg='prod-all', rule='RF-C', skip=(), only=None):
+    """Fiat-Shamir: the challenge has to be a hash of the statement (bases, public keys, commitments) together with the prover's first
+    message; a challenge computed from the recomputed first message alone does not bind the proof to the statement it is checked against - the
+    verifier then accepts the same proof for another key whenever the recomputation happens to agree (c replaced by N - c with an even exponent,
+    a base or commitment replaced by another representative).  Decided per verifier on what is turned into text for the digest: a parameter
+    is hashed *as itself* when `to_string` is applied to (a part of) it without any computation in between; every parameter of the verifier
+    other than the proof, counts and index lists must be.  Armed for the two verifiers for which an accepted altered statement has been
+    demonstrated; reported as information for the others."""
+    prog, eng = ctx.prog(cfg), ctx.eng(cfg)
+    n = 0
+    for fn in FS_VERIFIERS:
+        if any(fn.endswith(x) for x in skip) or (only and not any(x in fn for x in only)):
+            continue
+        b = prog.bodies.get(fn)
+        if b is None:
+            raise AnchorMissing(fn)
+        fd = eng.fndep(fn)
+        sites = _fs_hash_sites(eng, b)
+        if len(sites) != 1:
+            yield Ob(rule, '%s#hash-sites' % fn, False, 'exactly one challenge hash', b.span, fact=len(sites), expected=1)
+            continue
+        kself = b.param_index('self')
+        raw = set()
+        for bi, t in b.calls():
+            if not (t.get('callee') or '').endswith('ToString::to_string') or not t['args'] or t['args'][0]['k'] not in ('copy', 'move'):
+                continue
+            root, path = fd.resolve_place(t['args'][0]['pl'])
+            if fd.is_param(root):
+                raw.add(b.local_name(root) + ''.join('.' + x for x in path[:1]))
+        # values listed in an array literal that is handed to a local helper which turns each of its items into text (`transcript(&[&w, E, g, ..])`)
+        from flow import _array_literal_of
+        for bi, t in b.calls():
+            tgt = local_target(eng, t)
+            if tgt is None or tgt not in prog.bodies or tgt == fn:
+                continue
+            texts = any((t2.get('callee') or '').endswith('ToString::to_string') for bb in [prog.bodies[tgt]] + list(prog.closures_of(tgt)) for _bi, t2 in bb.calls())
+            if not texts:
+                continue
+            for a in t['args']:
+                lit = _array_literal_of(fd, a)
+                for o in lit or []:
+                    if o.get('k') in ('copy', 'move'):
+                        root, path = fd.resolve_place(o['pl'])
+                        if fd.is_param(root):
+                            raw.add(b.local_name(root) + ''.join('.' + x for x in path[:1]))
+        stmt = set()
+        for k in range(1, b.arg_count + 1):
+            if k == kself:
+                continue
+            ty = b.local_ty(k).replace('&mut ', '').lstrip('&').strip()
+            if ty in ('usize', 'u32', 'u64', '[usize]') or 'usize' in ty or any(x in ty for x in ('ProofSs', 'ProofLi', 'ProofOfS', 'CL03Message')):
+                continue
+            stmt.add(b.local_name(k))
+        missing = sorted(x for x in stmt if not any(r == x or r.startswith(x + '.') for r in raw))
+        n += 1
+        armed = fn in FS_ARMED
+        yield Ob(rule, '%s#statement-in-challenge' % fn, (not missing) if armed else (True if not missing else None),
+                 'every part of the statement is an ingredient of the challenge hash as itself (not only through the recomputed first message)',
+                 '%s L%s' % (b.file(), sites[0][1].get('line')), fact={'hashed_as_themselves': sorted(raw), 'statement_parameters_not_hashed': missing},
+                 expected='all statement parameters', nontrivial=armed)
+    yield Ob(rule, 'cl03#fs-verifiers', n >= 2, 'Fiat-Shamir verifiers examined', '', fact=n, expected='>= 2', nontrivial=False)
 
 
 # ---------------------------------------------------------------------------------- list fields have the expected number of entries
